@@ -21,6 +21,7 @@ The runtime part of the property (no panic, no divergence of the real binaries) 
 -/
 import Argot.Proofs.C07Diamonds
 import Argot.Proofs.C07Visit
+import Argot.Proofs.C07Reach
 import Argot.Spec.C07Tables
 import Argot.Gen.T1Dispatch
 import Argot.Gen.T8Panics
@@ -125,6 +126,30 @@ theorem hasPathFix_diamonds (n fuel : Nat) : (hasPathFix (diamonds n) 0 (3 * n +
   have := (hasPathFix_linear (diamonds n) (diamonds_wf n) 0 (3 * n + 1) fuel).1
   rw [diamonds_length] at this
   exact this
+
+/-- **Both searches decide control-flow reachability** whenever they finish … -/
+theorem hasPathCur_correct (g : Cfg) (src tgt fuel : Nat) (hd : (hasPathCur g src tgt fuel).done = true) :
+    (hasPathCur g src tgt fuel).answer = true ↔ Reach g src tgt :=
+  runCur_correct g src tgt fuel (initCur src) 0
+    { qreach := by intro x hx; simp [initCur] at hx; subst hx; exact Reach.refl
+      vis := by intro x hx; simp [initCur] at hx
+      src := Or.inr (by simp [initCur]) } hd
+
+theorem hasPathFix_correct (g : Cfg) (src tgt fuel : Nat) (hd : (hasPathFix g src tgt fuel).done = true) :
+    (hasPathFix g src tgt fuel).answer = true ↔ Reach g src tgt :=
+  runFix_correct g src tgt fuel (initFix src) 0
+    { qreach := by intro x hx; simp [initFix] at hx; subst hx; exact Reach.refl
+      vis := by intro x hx; simp [initFix] at hx; subst hx; exact Or.inl (by simp [initFix])
+      src := by simp [initFix] } hd
+
+/-- … so **the repair changes no answer**: with enough fuel for both, the repaired search returns exactly what the
+current one returns, on every well-formed CFG. -/
+theorem hasPath_repair_same_answer (g : Cfg) (hwf : wf g = true) (src tgt fuel : Nat) (hsrc : src < g.length)
+    (hf : geo (maxDeg g) g.length < fuel) (hf' : g.length + 2 ≤ fuel) :
+    (hasPathFix g src tgt fuel).answer = (hasPathCur g src tgt fuel).answer := by
+  have hc := hasPathCur_correct g src tgt fuel ((hasPathCur_terminates g hwf src tgt fuel hsrc).2 hf)
+  have hx := hasPathFix_correct g src tgt fuel ((hasPathFix_linear g hwf src tgt fuel).2 hf')
+  cases h1 : (hasPathFix g src tgt fuel).answer <;> cases h2 : (hasPathCur g src tgt fuel).answer <;> simp_all
 
 theorem pow_growth : ∀ c : Nat, 3 * (c * c) + 11 * c + 3 < 32 * 2 ^ c
   | 0 => by simp
@@ -269,6 +294,9 @@ example : numNodup 3 = 16 ∧ geo 2 4 = 31 := by decide
 #print axioms hasPathCur_diamonds
 #print axioms hasPathFix_diamonds
 #print axioms hasPathCur_not_linear
+#print axioms hasPathCur_correct
+#print axioms hasPathFix_correct
+#print axioms hasPath_repair_same_answer
 #print axioms visit_terminates
 #print axioms ctx_terminates
 
